@@ -1,9 +1,10 @@
 package main
 
 // Stream `cla`: index operations plus membership queries. The queries go through the REAL
-// endpoints.NewEndpointBuilder(cluster, proxy, push).BuildClusterLoadAssignment(index) of a
-// pilot/test/xds FakeDiscoveryServer (real PushContext, SidecarScope, DestinationRules, mesh config),
-// on the server's own EndpointIndex, which the `upd`/`delsvc`/... lines fill through the real index API.
+// xds.EdsGenerator.Generate of a pilot/test/xds FakeDiscoveryServer (real PushContext, SidecarScope,
+// DestinationRules, mesh config, real XdsCache in front of endpoints.NewCDSEndpointBuilder(...).
+// BuildClusterLoadAssignment(index)), on the server's own EndpointIndex, which the `upd`/`delsvc`/...
+// lines fill through the real index API (and which invalidates that cache).
 //
 //	cla <svc> <ns> <port> <subset> <proxy> <unh>  <portName> <subsetLabels> <view> <proxyCluster>
 //	    <clusterLocal> <nodeLocal> <proxyNode> <unhealthyOk> <persistent>
@@ -18,6 +19,7 @@ import (
 	"sort"
 	"strconv"
 	"strings"
+	"time"
 
 	endpoint "github.com/envoyproxy/go-control-plane/envoy/config/endpoint/v3"
 
@@ -26,7 +28,9 @@ import (
 	"istio.io/istio/pilot/pkg/features"
 	"istio.io/istio/pilot/pkg/model"
 	"istio.io/istio/pilot/pkg/networking/util"
+	pxds "istio.io/istio/pilot/pkg/xds"
 	"istio.io/istio/pilot/pkg/xds/endpoints"
+	v3 "istio.io/istio/pilot/pkg/xds/v3"
 	txds "istio.io/istio/pilot/test/xds"
 	"istio.io/istio/pkg/cluster"
 	"istio.io/istio/pkg/config"
@@ -35,6 +39,7 @@ import (
 	"istio.io/istio/pkg/config/protocol"
 	"istio.io/istio/pkg/config/schema/gvk"
 	"istio.io/istio/pkg/network"
+	"istio.io/istio/pkg/util/sets"
 	"verifharness/internal/quiet"
 	"verifharness/internal/wire"
 )
@@ -105,6 +110,7 @@ type claWorld struct {
 	f       *failer
 	s       *txds.FakeDiscoveryServer
 	proxies map[string]*model.Proxy
+	lastUnh bool
 }
 
 func newClaWorld() *claWorld {
@@ -213,10 +219,19 @@ func parseQuery(f []string) (claQuery, bool) {
 	return claQuery{svc: wire.Dec(f[1]), ns: wire.Dec(f[2]), port: atoi(f[3]), subset: wire.Dec(f[4]), proxy: f[5], unh: f[6] == "1"}, true
 }
 
-func (w *claWorld) query(q claQuery) *endpoint.ClusterLoadAssignment {
+// query returns what the proxy is SERVED: the resource produced by the real EdsGenerator (with the
+// server's real XdsCache in front of the builder). `direct`, if not nil, receives the assignment
+// built directly from the current index (no cache) for the oracle's served-is-current clause.
+func (w *claWorld) query(q claQuery, direct **endpoint.ClusterLoadAssignment) *endpoint.ClusterLoadAssignment {
 	p := w.proxies[q.proxy]
 	if p == nil {
 		return nil
+	}
+	if q.unh != w.lastUnh {
+		// the flag is a process-wide environment setting that the cache key does not (need to) contain:
+		// changing it stands for a restart of istiod
+		w.s.Discovery.Env.Cache.ClearAll()
+		w.lastUnh = q.unh
 	}
 	// whether unhealthy endpoints are served is a process-wide default (PILOT_AUTO_SEND_UNHEALTHY_ENDPOINTS,
 	// on by default) unless a DestinationRule sets outlierDetection.minHealthPercent; the query picks it
@@ -224,8 +239,24 @@ func (w *claWorld) query(q claQuery) *endpoint.ClusterLoadAssignment {
 	features.DefaultSendUnhealthyEndpoints.Store(q.unh)
 	defer features.DefaultSendUnhealthyEndpoints.Store(prev)
 	name := model.BuildSubsetKey(model.TrafficDirectionOutbound, q.subset, host.Name(q.svc), q.port)
-	b := endpoints.NewEndpointBuilder(name, p, w.s.PushContext())
-	return b.BuildClusterLoadAssignment(w.index())
+	if direct != nil {
+		b := endpoints.NewEndpointBuilder(name, p, w.s.PushContext())
+		*direct = b.BuildClusterLoadAssignment(w.index())
+	}
+	// wired as in pilot/pkg/bootstrap (InitGenerators): generator cache == the cache the index invalidates.
+	// (The fake server itself pairs its generator with the cache of a different Environment.)
+	env := w.s.Discovery.Env
+	gen := &pxds.EdsGenerator{Cache: env.Cache, EndpointIndex: env.EndpointIndex}
+	res, _, err := gen.Generate(p, &model.WatchedResource{TypeUrl: v3.EndpointType, ResourceNames: sets.New(name)},
+		&model.PushRequest{Forced: true, Push: w.s.PushContext(), Start: time.Now()})
+	if err != nil || len(res) != 1 {
+		return nil
+	}
+	cla := &endpoint.ClusterLoadAssignment{}
+	if err := res[0].GetResource().UnmarshalTo(cla); err != nil {
+		return nil
+	}
+	return cla
 }
 
 type claSUT struct {
@@ -248,7 +279,7 @@ func (c *claSUT) apply(f []string) (out string) {
 		if !ok {
 			return "bad-op"
 		}
-		cla := c.w.query(q)
+		cla := c.w.query(q, nil)
 		if cla == nil {
 			return "bad-op"
 		}
@@ -545,17 +576,20 @@ func oracleCla(in, outp string) {
 		if noAddr {
 			continue
 		}
-		var cla *endpoint.ClusterLoadAssignment
+		var cla, direct *endpoint.ClusterLoadAssignment
 		func() {
 			defer func() {
 				if r := recover(); r != nil {
 					fail("never-crashes", strings.Join(f[:7], " "))
 				}
 			}()
-			cla = c.w.query(q)
+			cla = c.w.query(q, &direct)
 		}()
 		if cla == nil {
 			continue
+		}
+		if direct != nil && showCLA(direct) != showCLA(cla) {
+			fail("served-is-current", fmt.Sprintf("%s: generator serves %s, index has %s", strings.Join(f[1:7], " "), showCLA(cla), showCLA(direct)))
 		}
 		// expected members, by locality
 		exp := map[string][]string{}
